@@ -5,7 +5,7 @@ CONSTANTS
   MaxStmts = 4
   MaxDepth = 1
   MaxComp = 1
-  Kinds = {"asg", "del", "read", "mr", "ret", "brk", "cnt", "if", "while", "for"}
+  Kinds = {"asg", "del", "read", "mr", "raise", "ret", "brk", "cnt", "if", "while", "for"}
   HSh <- HShFin
   AsVars = FALSE
   MaxWord = 6
